@@ -1575,6 +1575,19 @@ std::string OutputManager::render_formatted_string(
                 value = static_cast<int>(int_args[arg_index]);
             }
             formatted = format_with_snprintf(fmt, value);
+            // The rendered text is passed through process_escape_sequences
+            // below: a backslash produced by %c must not combine with the
+            // character that follows it ("%cn" with 92 printed a newline).
+            {
+                std::string protected_text;
+                for (char out_ch : formatted) {
+                    protected_text += out_ch;
+                    if (out_ch == '\\') {
+                        protected_text += '\\';
+                    }
+                }
+                formatted = protected_text;
+            }
             break;
         }
         case 's': {
